@@ -566,6 +566,13 @@ def run(ctx):
     from pyunicorn.timeseries import VisibilityGraph as VG
     rng = ctx.rng
     quick = ctx.tier == "quick"
+    import time
+    t_phase = [time.time()]
+
+    def phase(name):
+        now = time.time()
+        ctx.extra.setdefault("phase_seconds", {})[name] = round(now - t_phase[0], 1)
+        t_phase[0] = now
     ctx.rule = ("kernel level: the three visibility kernels on all series over {0..3}^n "
                 f"(n <= {5 if quick else 7}, sampled beyond) with all / random masks, random structured "
                 "exact series (plateaus, monotone runs, collinear segments, parabolas, spikes, "
@@ -637,6 +644,7 @@ def run(ctx):
         pool.append(([Fr(i % 2) for i in range(n)], None, "degenerate:alternating"))
         pool.append(([Fr(5) if i == n // 2 else Fr(0) for i in range(n)], None, "degenerate:spike"))
 
+    phase("proofs+pool")
     # ---------------- kernel-level correspondence ----------------------------
     reqs, impl = [], []
 
@@ -742,6 +750,7 @@ def run(ctx):
                    "driver on the series of the exact correspondence", freqs, ["1"] * len(freqs))
     ctx.extra["faithful_checked_in_lean"] = len(freqs)
 
+    phase("kernel-level")
     # ---------------- clustering kernels ---------------------------------------
     # in domain: symmetric loop-free matrices with the class's norm d(d-1)/2;
     # arbitrary (asymmetric) matrices and norms are compared for information only
@@ -784,14 +793,14 @@ def run(ctx):
         print(f"  note: clustering model and kernels differ on {len(cxbad)}/{len(cxreqs)} "
               "asymmetric matrices / foreign norms (outside the property's domain)")
 
+    phase("clustering-kernels")
     # ---------------- object level: correspondence + oracle -------------------
     oreqs, oimpl, ocases = [], [], []
     hreqs, himpl = [], []          # visibility_relations*() called again on a live object
     objs = [p for p in pool if len(p[0]) >= 2]
-    if quick:
-        small = [p for p in objs if p[2].startswith("exhaustive")]
-        rnd = [p for p in objs if not p[2].startswith("exhaustive")]
-        objs = rng.sample(small, min(len(small), 400)) + rnd
+    small = [p for p in objs if p[2].startswith("exhaustive")]
+    rnd = [p for p in objs if not p[2].startswith("exhaustive")]
+    objs = rng.sample(small, min(len(small), 400 if quick else 5000)) + rnd
     # all-missing and almost-all-missing series (every sample isolated / one sample left)
     for n in (2, 3, 6):
         objs.append(([None] * n, None, "degenerate:all-missing"))
@@ -882,6 +891,7 @@ def run(ctx):
                                "answer(A|ret|adv|deg|retclust|advclust|retclose|advclose|bcdeg|bcclose)":
                                    oimpl[i]})
 
+    phase("object-level-correspondence")
     # the oracle (independent of the model) on every object-level case
     nfail = 0
     for k, (xx, t, missing, hor, form) in enumerate(ocases):
@@ -904,6 +914,7 @@ def run(ctx):
                                        "missing_values": missing, "horizontal": hor,
                                        "caller_array": form, **det})
 
+    phase("oracle")
     # ---------------- generic float32 data: the float32 model ------------------
     # Arbitrary float32 series (near ties, wide dynamic range, NaN): the compiled natural
     # kernels against (a) the Lean model `kernelNR rndF32` (both differences and the quotient
@@ -977,6 +988,7 @@ def run(ctx):
     ctx.correspond("Lean float32 model kernelNR rndF32 == compiled natural kernels "
                    "(exact series and order-faithful generic float32 data)", rreqs, rimpl)
     ctx.extra["float32_model_calls_compared"] = len(rreqs)
+    phase("float32-model")
 
 
 def replay(ctx, rp):
